@@ -23,7 +23,8 @@ package v1
 // (the clauses are on json.Decoder.Decode and backend.Ledger.CreateTransaction, scoped to this function)
 //@ func v1.postTransaction
 //@   requires r != nil
-//@   property C09
+//@   requires !writeRefused
+//@   property C09 C06
 
 // C04: the balances endpoint derives each balance from the account's volumes, so the query it hands to the engine must
 // ask for them (without the flag the store returns accounts with no volumes and the endpoint reports no balance at all)
@@ -33,4 +34,19 @@ package v1
 // C10: the unforced / forced mode of a revert request reaches the engine as the request states it (contracts/extern/backend.contracts)
 //@ func v1.revertTransaction
 //@   requires r != nil
-//@   property C10
+//@   requires !writeRefused
+//@   property C10 C06
+
+// C06: the metadata write handlers answer a success only when the engine accepted the write (see libs/api: NoContent / Created / Ok)
+//@ func v1.postTransactionMetadata
+//@   requires r != nil && !writeRefused
+//@   property C06
+//@ func v1.deleteTransactionMetadata
+//@   requires r != nil && !writeRefused
+//@   property C06
+//@ func v1.postAccountMetadata
+//@   requires r != nil && !writeRefused
+//@   property C06
+//@ func v1.deleteAccountMetadata
+//@   requires r != nil && !writeRefused
+//@   property C06
